@@ -89,21 +89,37 @@ class Check:
         self.native = {}
         self.lines = []
 
-    def harness_files(self):
-        prep = getattr(self.spec, "prepare", None)
+    def modules(self):
+        """name -> dict(harness=[abs paths], entries=set)"""
+        spec = self.spec
+        prep = getattr(spec, "prepare", None)
         if prep and not getattr(self, "_prepared", False):
             prep()
             self._prepared = True
-        return [h if os.path.isabs(h) else os.path.join(VERIF, "harness", h) for h in self.spec.HARNESS]
+        mods = getattr(spec, "MODULES", None)
+        if not mods:
+            mods = {getattr(spec, "MODULE", self.pid.lower()): dict(harness=spec.HARNESS, entries=getattr(spec, "ENTRIES", ()))}
+        out = {}
+        for name, d in mods.items():
+            out[name] = dict(harness=[h if os.path.isabs(h) else os.path.join(VERIF, "harness", h) for h in d["harness"]],
+                             entries=set(d.get("entries", ())), ref_repo=d.get("ref_repo", getattr(spec, "REF_REPO", None)))
+        return out
+
+    def mod_of(self, job):
+        mods = self.modules()
+        return job.get("mod") or next(iter(mods))
 
     def ref_repo(self):
         return getattr(self.spec, "REF_REPO", None)
 
-    def twin(self, kind):
-        if kind not in self.native:
-            self.native[kind] = build.build_native(getattr(self.spec, "MODULE", self.pid.lower()), self.harness_files(), defines=getattr(self.spec, "DEFINES", ()),
-                                                   ref_repo=self.ref_repo(), kind=kind)
-        return self.native[kind]
+    def twin(self, kind, mod=None):
+        mods = self.modules()
+        mod = mod or next(iter(mods))
+        key = (kind, mod)
+        if key not in self.native:
+            self.native[key] = build.build_native(mod, mods[mod]["harness"], defines=getattr(self.spec, "DEFINES", ()),
+                                                  ref_repo=mods[mod]["ref_repo"], kind=kind)
+        return self.native[key]
 
     def signature(self, job, v):
         f = getattr(self.spec, "signature", None)
@@ -114,26 +130,32 @@ class Check:
     def main(self):
         spec = self.spec
         jobs = spec.jobs(self.tier, self.seed)
-        entries = sorted(set(j["entry"] for j in jobs) | set(getattr(spec, "ENTRIES", ())))
+        mods = self.modules()
+        for j in jobs:
+            mods[self.mod_of(j)]["entries"].add(j["entry"])
         keep = list(getattr(spec, "KEEP", ()))
         # start the fast native build in the background (validator); the ASan build only on demand
         bg = {}
 
         def bgbuild():
             try:
-                bg["twin"] = self.twin("fast")
+                for mname in mods:
+                    if any(self.mod_of(j) == mname for j in jobs):
+                        bg.setdefault("twins", {})[mname] = self.twin("fast", mname)
             except Exception as ex:  # noqa
                 bg["err"] = str(ex)
         th = None
         if getattr(spec, "VALIDATE", True):
             th = threading.Thread(target=bgbuild)
             th.start()
-        module = build.build_module(getattr(spec, "MODULE", self.pid.lower()), self.harness_files(), entries, defines=getattr(spec, "DEFINES", ()),
-                                    ref_repo=self.ref_repo(), keep=keep)
+        self.module = {}
+        for mname, d in mods.items():
+            if any(self.mod_of(j) == mname for j in jobs):
+                self.module[mname] = build.build_module(mname, d["harness"], sorted(d["entries"]), defines=getattr(spec, "DEFINES", ()),
+                                                        ref_repo=d["ref_repo"], keep=keep)
         t_build = time.time() - self.t0
-        self.module = module
         for j in jobs:
-            j["module"] = module
+            j["module"] = self.module[self.mod_of(j)]
             j.setdefault("seed", self.seed)
         results = runner.run_jobs(jobs, cache=not os.environ.get("VERIF_NOCACHE"))
         if th:
@@ -209,14 +231,14 @@ class Check:
             nat = None
             if rp is not None:
                 rp = dict(rp)
-                rp["meta"] = {"property": pid, "signature": sig, "msg": v["msg"], "stack": v["stack"][:6]}
+                rp["meta"] = {"property": pid, "signature": sig, "msg": v["msg"], "stack": v["stack"][:6], "mod": self.mod_of(job)}
                 write_replay(path, rp)
                 if v["aid"] in getattr(spec, "ENGINE_ONLY_AIDS", ()):
                     ok = self.engine_replay(job, rp, v["aid"])
                     nat = {"engine_replay": ok}
                 else:
                     try:
-                        nat = run_native(self.twin("asan"), path, timeout=getattr(spec, "NATIVE_TIMEOUT", 120))
+                        nat = run_native(self.twin("asan", self.mod_of(job)), path, timeout=getattr(spec, "NATIVE_TIMEOUT", 120))
                         ok = reproduces(v["aid"], nat)
                         if not ok and getattr(spec, "ENGINE_REPLAY_FALLBACK", False):
                             ok = False
@@ -241,14 +263,17 @@ class Check:
         validated = 0
         val_mismatch = []
         nval = getattr(spec, "VALIDATE_N", {"quick": 5, "thorough": 25})[self.tier]
-        if getattr(spec, "VALIDATE", True) and "twin" in bg and samples:
+        if getattr(spec, "VALIDATE", True) and bg.get("twins") and samples:
             step = max(1, len(samples) // nval)
             vdir = os.path.join(VERIF, "build", "val", pid)
             os.makedirs(vdir, exist_ok=True)
             for i, (job, sm) in enumerate(samples[::step][:nval]):
                 p = os.path.join(vdir, "s%d.txt" % i)
                 write_replay(p, sm)
-                nat = run_native(bg["twin"], p, timeout=60)
+                tw = bg["twins"].get(self.mod_of(job))
+                if not tw:
+                    continue
+                nat = run_native(tw, p, timeout=60)
                 good = (nat["rc"] == 0 and nat["reach"] == sm.get("reached", []) and
                         (sm.get("out_sha") is None or nat["out_sha"] == sm["out_sha"]))
                 if good:
@@ -314,7 +339,7 @@ class Check:
     def engine_replay(self, job, rp, aid):
         """re-execute the harness in the engine with every symbolic input fixed to the model"""
         j = dict(job)
-        j["module"] = self.module
+        j["module"] = self.module[self.mod_of(job)]
         j["engine_opts"] = dict(job.get("engine_opts", {}), replay={"values": rp["values"], "input": rp.get("input", ""), "trunc": rp.get("trunc")})
         j["budget"] = 300
         r = runner.run_job(j)
@@ -353,7 +378,7 @@ def cmd_replay(path):
         print("replay file carries no meta line")
         return 2
     c = Check(meta["property"], "quick", 0)
-    nat = run_native(c.twin("asan"), path)
+    nat = run_native(c.twin("asan", meta.get("mod")), path)
     print(json.dumps(_short(nat), indent=1))
     print("stderr tail:", nat.get("stderr", "")[-800:])
     aid = meta["signature"].split(":")[-1]
